@@ -68,6 +68,9 @@ def judge(prop, res, scs):
     """-> list of Judgement, one per scenario of the batch"""
     logs, ended, last = O.split_groups(res.out)
     crash = None if res.timed_out else crash_kind(res)
+    # a crash after SimGrid announced the final deadlock happened while the engine was killing the actors that were still blocked:
+    # every scenario of the batch was run to its end (only the end-of-run slot checks are missing)
+    at_exit = bool(crash) and not ended and "Deadlock detected" in (res.err or "")
     out = []
     for k, sc in enumerate(scs):
         j = Judgement()
@@ -75,19 +78,28 @@ def judge(prop, res, scs):
         if res.timed_out:
             j.status = "watchdog"
             continue
-        if crash and (k > last or last < 0):
+        if crash and not at_exit and (k > last or last < 0):
             j.status = "not-run"
             continue
-        done = ended or (k < last)
-        r = O.replay(logs.get(k, ""), prop, ended=done and not (crash and k == last))
+        done = ended or at_exit or (k < last)
+        r = O.replay(logs.get(k, ""), prop, ended=done and not (crash and not at_exit and k == last))
         j.result = r
         j.violations = [(key, what) for key, what in r.violations]
-        if crash and k == last and not any(not key.endswith("payload-rewritten-after-delivery") for key, _ in j.violations):
-            ctxt = r.qcontext if prop == "C09" else ("permanent" if r.toggled else "plain")
+    if crash and not res.timed_out and last >= 0:
+        ctxs = [(j.result.qcontext if prop == "C09" else j.result.mcontext) if j.result else "plain" for j in out]
+        if at_exit:
+            # blame the first scenario in which a defect known to leave dangling kernel state was triggered, else the last one
+            k = next((i for i, c in enumerate(ctxs) if c not in ("plain", "permanent")), last)
+            where = "while the engine killed the actors still blocked at the end of the batch"
+        else:
+            k = last
+            where = "while running this scenario"
+        j = out[k]
+        if not any(not key.endswith("payload-rewritten-after-delivery") for key, _ in j.violations):
             tail = (res.err or "").strip().splitlines()
-            j.violations.append(("%s:crash:%s:%s" % (prop, crash, ctxt),
-                                 "the harness process died (%s, rc=%s) while running this scenario; last log lines %r; stderr tail %r"
-                                 % (crash, res.rc, logs.get(k, "").splitlines()[-6:], tail[-6:])))
+            j.violations.append(("%s:crash:%s:%s" % (prop, crash, ctxs[k]),
+                                 "the harness process died (%s, rc=%s) %s; last log lines %r; stderr tail %r"
+                                 % (crash, res.rc, where, logs.get(k, "").splitlines()[-6:], tail[-6:])))
     return out
 
 
